@@ -571,6 +571,11 @@ func (cfg *config) parseRole(
 	}
 
 	parserNames := make(map[string]struct{})
+	for _, sn := range thisRole.sigNames {
+		// Signals inherited from the extended role cannot be redefined
+		// either.
+		parserNames[sn] = struct{}{}
+	}
 	cfg.roles[roleName] = thisRole
 	cfg.roleNames = append(cfg.roleNames, roleName)
 
